@@ -255,7 +255,14 @@ func C13(p *core.Program, r *core.Report) {
 					case *ssa.Go, *ssa.Defer, *ssa.Send:
 						problems = append(problems, fmt.Sprintf("%T inside the log region at %s", x, p.Pos(in.Pos())))
 					case ssa.CallInstruction:
-						if _, isB := x.Common().Value.(*ssa.Builtin); isB {
+						if b, isB := x.Common().Value.(*ssa.Builtin); isB {
+							// filter-in-place: append to (or copy into) a re-slice of storage that exists
+							// outside the region overwrites that storage
+							if args := x.Common().Args; (b.Name() == "append" || b.Name() == "copy") && len(args) > 0 {
+								if w := overwritesOutside(args[0], b.Name() == "copy", inRegion, storeIsLocal, map[ssa.Value]bool{}); w != nil {
+									problems = append(problems, fmt.Sprintf("%s writes into the storage of %s, which exists outside the log region (at %s)", b.Name(), core.NewCanon(p).Of(w), p.Pos(in.Pos())))
+								}
+							}
 							continue
 						}
 						if isLogSink(x) {
@@ -722,6 +729,58 @@ func storeIsLocal(addr ssa.Value, inRegion func(ssa.Value) bool) bool {
 		}
 	}
 	return false
+}
+
+// overwritesOutside follows the destination of an append/copy through merges and earlier appends:
+// it returns the sliced storage when the destination is a re-slice of something that was not made
+// inside the region (direct: the value itself counts, as for copy).
+func overwritesOutside(v ssa.Value, direct bool, inRegion func(ssa.Value) bool, local func(ssa.Value, func(ssa.Value) bool) bool, seen map[ssa.Value]bool) ssa.Value {
+	if seen[v] {
+		return nil
+	}
+	seen[v] = true
+	switch x := v.(type) {
+	case *ssa.Const:
+		return nil
+	case *ssa.MakeSlice:
+		if direct && !inRegion(x) {
+			return x
+		}
+		return nil
+	case *ssa.Phi:
+		for _, e := range x.Edges {
+			if w := overwritesOutside(e, direct, inRegion, local, seen); w != nil {
+				return w
+			}
+		}
+		return nil
+	case *ssa.Slice:
+		if al, ok := x.X.(*ssa.Alloc); ok {
+			if inRegion(al) {
+				return nil
+			}
+			return x.X
+		}
+		return overwritesOutside(x.X, true, inRegion, local, seen)
+	case *ssa.Call:
+		if b, ok := x.Call.Value.(*ssa.Builtin); ok && b.Name() == "append" && len(x.Call.Args) > 0 {
+			return overwritesOutside(x.Call.Args[0], direct, inRegion, local, seen)
+		}
+		if direct && !inRegion(x) {
+			return x
+		}
+		return nil
+	case *ssa.UnOp:
+		if direct && !local(x.X, inRegion) {
+			return x
+		}
+		return nil
+	default:
+		if direct && !inRegion(v) {
+			return v
+		}
+		return nil
+	}
 }
 
 func isDebugMap(p *core.Program, m ssa.Value) bool {
